@@ -584,17 +584,21 @@ func init() {
 				if tier != "thorough" && (i%2 == 0) != (ivl == "8") {
 					continue
 				}
-				r = append(r, inst(p, "VerifC06", "avc", "cenc", ivl, sz, "false"))
+				r = append(r, inst(p, "VerifC06", "avc", "cenc", ivl, sz, "false", "false"))
 			}
 		}
-		r = append(r, inst(p, "VerifC06", "avc", "cenc", "16", "120,4", "true"))
+		r = append(r, inst(p, "VerifC06", "avc", "cenc", "16", "120,4", "true", "false"))
+		// init and media segment decoded separately (IV size of senc guessed): 1 or 2 samples
+		for _, x := range [][3]string{{"avc", "8", "16"}, {"avc", "16", "16"}, {"avc", "16", "123;124"}, {"avc", "8", "130;16,3"}, {"aac", "16", "32;33"}, {"aac", "8", "17"}} {
+			r = append(r, inst(p, "VerifC06", x[0], "cenc", x[1], x[2], "false", "true"))
+		}
 		for i, sz := range audio {
 			for _, sch := range []string{"cenc", "cbcs"} {
 				ivl := "16"
 				if i%2 == 1 {
 					ivl = "8"
 				}
-				r = append(r, inst(p, "VerifC06", "aac", sch, ivl, sz, "false"))
+				r = append(r, inst(p, "VerifC06", "aac", sch, ivl, sz, "false", "false"))
 			}
 		}
 		for _, c := range r {
@@ -782,11 +786,13 @@ func init() {
 			if tier == "thorough" {
 				sclasses = []int{0, 1, 1001, 2, 1002, 3, 1003, 4, 1004, 5, 1006, 8, 1008, 101, 1103}
 			}
-			for _, v := range []int{0, 1, 2, 3, 9, 16, 33, 40} {
+			// SPS variants: progressive poc 0 (0, hp 1), poc 1 (2), interlaced poc 0 (12, hp 13),
+			// interlaced poc 1 (hp 9), interlaced poc 2 (10), cropping (16), VUI (hp 33)
+			for _, v := range []int{0, 1, 12, 13, 2, 9, 10, 16, 33} {
 				for _, cl := range sclasses {
 					for _, more := range []string{"false", "true"} {
 						for _, idr := range []string{"true", "false"} {
-							if tier != "thorough" && ((more == "true") != (idr == "false") || cl%100 >= 5 && v > 3) {
+							if tier != "thorough" && ((more == "true") != (idr == "false") || cl%100 >= 5 && v != 0 && v != 13) {
 								continue
 							}
 							r = append(r, inst(p, "VerifC15PPSSlice", itoa(v), itoa(cl), more, idr))
